@@ -505,6 +505,8 @@ class SimNet:
 
         Raises Deadlock (with .info) if the run cannot complete, PartyError if a party raised.
         """
+        if getattr(program, 'expected_exc', None):
+            self.expected_exc = program.expected_exc      # faults the program injects on purpose
         self.connect()
         self.tasks = []
         for i in range(self.m):
